@@ -513,3 +513,207 @@ func c08InvokeName(cc *ssa.CallCommon, qual string) string {
 }
 
 var _ = types.Typ
+
+// ---------------------------------------------------------------- leaves --
+
+// c08Leaf is a value a (pointer / scalar) value may be *identical* to — not
+// merely derived from — together with the context it lives in.
+type c08Leaf struct {
+	V   ssa.Value
+	Ctx *c08Ctx
+}
+
+// c08ValueLeaves resolves v backwards through identity-preserving steps only
+// (phi, conversions, interface boxing/unboxing, loads of address-taken locals
+// and captured variables, parameters through the call string, results of
+// analysable static callees accepted by bodyOK) and returns the values it may be
+// equal to.  Everything else (calls without body, field loads, globals,
+// parameters of the outermost function, allocations, constants) is a leaf.
+func c08ValueLeaves(v ssa.Value, ctx *c08Ctx, bodyOK func(*ssa.Function) bool) []c08Leaf {
+	var out []c08Leaf
+	seen := map[c08Key]bool{}
+	var walk func(v ssa.Value, ctx *c08Ctx, depth int)
+	walkRet := func(call *ssa.Call, idx int, ctx *c08Ctx, depth int) bool {
+		cc := call.Common()
+		sf := calleeFn(cc)
+		if sf == nil || sf.Blocks == nil || bodyOK == nil || !bodyOK(sf) || ctx.has(sf) || ctx.depth() >= 10 {
+			return false
+		}
+		sub := &c08Ctx{parent: ctx, call: call, fn: sf}
+		for _, r := range returnsOf(sf) {
+			if idx < len(r.Results) {
+				walk(r.Results[idx], sub, depth+1)
+			}
+		}
+		return true
+	}
+	// stored values of an address-taken local
+	walkAlloc := func(al *ssa.Alloc, ctx *c08Ctx, depth int) bool {
+		n := 0
+		if refs := al.Referrers(); refs != nil {
+			for _, r := range *refs {
+				if st, ok := r.(*ssa.Store); ok && st.Addr == al {
+					walk(st.Val, ctx, depth+1)
+					n++
+				}
+			}
+		}
+		return n > 0
+	}
+	walk = func(v ssa.Value, ctx *c08Ctx, depth int) {
+		if v == nil {
+			return
+		}
+		k := c08Key{v, ctx}
+		if seen[k] {
+			return
+		}
+		seen[k] = true
+		leaf := func() { out = append(out, c08Leaf{v, ctx}) }
+		if depth > 60 {
+			leaf()
+			return
+		}
+		switch x := v.(type) {
+		case *ssa.Phi:
+			for _, e := range x.Edges {
+				walk(e, ctx, depth+1)
+			}
+		case *ssa.Convert:
+			walk(x.X, ctx, depth+1)
+		case *ssa.ChangeType:
+			walk(x.X, ctx, depth+1)
+		case *ssa.MakeInterface:
+			walk(x.X, ctx, depth+1)
+		case *ssa.ChangeInterface:
+			walk(x.X, ctx, depth+1)
+		case *ssa.TypeAssert:
+			walk(x.X, ctx, depth+1)
+		case *ssa.Extract:
+			switch t := x.Tuple.(type) {
+			case *ssa.TypeAssert:
+				if x.Index == 0 {
+					walk(t.X, ctx, depth+1)
+					return
+				}
+			case *ssa.Call:
+				if walkRet(t, x.Index, ctx, depth) {
+					return
+				}
+			}
+			leaf()
+		case *ssa.Call:
+			if !walkRet(x, 0, ctx, depth) {
+				leaf()
+			}
+		case *ssa.Parameter:
+			cx := ctx
+			for cx != nil && cx.fn != x.Parent() {
+				cx = cx.parent
+			}
+			if cx == nil || cx.call == nil || cx.call.Common().IsInvoke() {
+				leaf()
+				return
+			}
+			idx := -1
+			for i, p := range x.Parent().Params {
+				if p == x {
+					idx = i
+				}
+			}
+			args := cx.call.Common().Args
+			if idx < 0 || idx >= len(args) {
+				leaf()
+				return
+			}
+			walk(args[idx], cx.parent, depth+1)
+		case *ssa.FreeVar:
+			if b, bctx := c08Binding(x, ctx); b != nil {
+				walk(b, bctx, depth+1)
+				return
+			}
+			leaf()
+		case *ssa.UnOp:
+			if x.Op != token.MUL {
+				leaf()
+				return
+			}
+			switch a := x.X.(type) {
+			case *ssa.Alloc:
+				if walkAlloc(a, ctx, depth) {
+					return
+				}
+			case *ssa.FreeVar:
+				if b, bctx := c08Binding(a, ctx); b != nil {
+					if al, ok := b.(*ssa.Alloc); ok && walkAlloc(al, bctx, depth) {
+						return
+					}
+				}
+			}
+			leaf()
+		default:
+			leaf()
+		}
+	}
+	walk(v, ctx, 0)
+	return out
+}
+
+// c08Binding resolves a free variable to the value bound to it by the
+// MakeClosure through which the closure was entered in ctx (nil if the closure
+// was not entered through a direct call of a MakeClosure).
+func c08Binding(fv *ssa.FreeVar, ctx *c08Ctx) (ssa.Value, *c08Ctx) {
+	cx := ctx
+	for cx != nil && cx.fn != fv.Parent() {
+		cx = cx.parent
+	}
+	if cx == nil || cx.call == nil {
+		return nil, nil
+	}
+	mc, ok := cx.call.Common().Value.(*ssa.MakeClosure)
+	if !ok {
+		return nil, nil
+	}
+	for i, f := range fv.Parent().FreeVars {
+		if f == fv && i < len(mc.Bindings) {
+			return mc.Bindings[i], cx.parent
+		}
+	}
+	return nil, nil
+}
+
+// c08EstablishedAt reports whether the fact accepted by mk(ctx) (an edge
+// predicate whose operands are resolved in that context) holds whenever
+// instruction at executes in ctx: every path to at — or, failing that, to the
+// call site through which ctx.fn was entered, and so on up the call string —
+// crosses an accepted If edge.
+func c08EstablishedAt(at ssa.Instruction, ctx *c08Ctx, mk func(*c08Ctx) EdgePred) bool {
+	for cx := ctx; cx != nil && at != nil; cx = cx.parent {
+		if guardedCut(at, mk(cx)) {
+			return true
+		}
+		if cx.call == nil {
+			break
+		}
+		at = cx.call
+	}
+	return false
+}
+
+// c08EstablishedOnEdge: as c08EstablishedAt for the CFG edge from→to (used for
+// the incoming edges of a phi): either the fact holds in `from`, or `from` ends
+// in an If whose edge to `to` is itself accepted.
+func c08EstablishedOnEdge(from, to *ssa.BasicBlock, ctx *c08Ctx, mk func(*c08Ctx) EdgePred) bool {
+	last := from.Instrs[len(from.Instrs)-1]
+	if ifi, ok := last.(*ssa.If); ok && len(from.Succs) == 2 && from.Succs[0] != from.Succs[1] {
+		pred := mk(ctx)
+		for k, s := range from.Succs {
+			if s == to {
+				if c, pol := stripNot(ifi.Cond, k == 0); pred(c, pol) {
+					return true
+				}
+			}
+		}
+	}
+	return c08EstablishedAt(last, ctx, mk)
+}
